@@ -36,7 +36,7 @@ def _run_unit(args):
         for r in res:
             r["id"] = f"{prop}/{unit.name}/{r['id']}"
             r["unit_idx"] = idx
-        return {"unit": unit.name, "ok": True, "results": res, "functions": eng.functions, "dropped": sorted(set(eng.dropped)),
+        return {"unit": unit.name, "ok": True, "results": res, "functions": eng.functions, "dropped": sorted(set(eng.dropped) | set(getattr(eng, "extraction_notes", []))),
                 "trusted": sorted(set(getattr(eng, "trusted", []))), "wall": time.time() - t0}
     except Exception as e:
         return {"unit": unit.name, "ok": False, "error": f"{type(e).__name__}: {e}", "trace": traceback.format_exc()[-2000:], "wall": time.time() - t0}
